@@ -360,7 +360,29 @@ func init() {
 		switch format {
 		case "%d":
 			if in.sym != nil {
-				e.unsupported("fmt.Sscanf(%%d) on symbolic characters")
+				// symbolic characters: fmt scans the longest prefix [sign] digits and ignores the rest; the
+				// prefix must be concrete here (a symbolic character may only be a non-digit, which ends the scan)
+				var prefix []byte
+				for i, ch := range in.sym {
+					if ch.IsConst() {
+						cb := byte(ch.val)
+						if (cb >= '0' && cb <= '9') || (i == 0 && (cb == '-' || cb == '+')) {
+							prefix = append(prefix, cb)
+							continue
+						}
+						break
+					}
+					isDigit := c.BAnd(c.Cmp(OpUle, c.Const(8, '0'), ch), c.Cmp(OpUle, ch, c.Const(8, '9')))
+					signOK := c.False
+					if i == 0 {
+						signOK = c.BOr(c.Eq(ch, c.Const(8, '-')), c.Eq(ch, c.Const(8, '+')))
+					}
+					if e.branch(c.BOr(isDigit, signOK), nil) {
+						e.unsupported("fmt.Sscanf(%%d) on a symbolic digit")
+					}
+					break
+				}
+				in = StrV{s: string(prefix)}
 			}
 			var v int32
 			n, err := fmt.Sscanf(in.s, "%d", &v)
